@@ -7,6 +7,11 @@ from harness.checks import engine_common as ec
 PID = 'C08'
 
 
+# shapes on which the operator may pause / resume at any two points (pause-before needs the resume to go on)
+_OPS_SHAPES = ('pause_before_plain', 'pause_before_wait_timeout', 'fail_on_plain', 'fail_on_retry', 'retry_cont_true_ok', 'retry_break_false_err',
+               'retry_cont_false_err', 'wait_after_ok', 'wait_before_timeout_late')
+
+
 def _nontrivial(t):
     pol = [n for n, d in t['prog']['tasks'].items() if d['retry'] or d['waitBefore'] or d['waitAfter'] or d['timeout'] or d['failOn'] or d['pauseBefore']]
     ran = [x['sid'] for x in t['steps'][-1]['obs']['tk'] if x['name'] in pol]
@@ -45,8 +50,12 @@ def run(tier):
                            'expression), fail-on and pause-before (also combined with wait-before; resumed by the operator at rest) policies with per-attempt outcomes from the oracle, under a virtual clock; one third of the '
                            'runs lets timers fire ahead of pending results; non-trivial = distinct runs in which a task with a policy ran',
                            _nontrivial, strict=True,
-                           model_runs=lambda d: ec.catalogue_model_runs(d, tier, shapes=gen.policy_catalogue(), liveness_for=()),
-                           model_behaviours=lambda d: ec.model_jobs(d, tier, shapes=gen.policy_catalogue(), sims=[(None, 2 if tier == 'quick' else 8, 0, 0, ())]))
+                           model_runs=lambda d: ec.catalogue_model_runs(d, tier, shapes=gen.policy_catalogue(), liveness_for=()) +
+                           ec.catalogue_model_runs(d, tier, shapes=gen.policy_catalogue(), ops=2, kinds=('pause', 'resume'), tag='_pr2', liveness_for=(),
+                                                   only=_OPS_SHAPES, schedulers=('default', 'legacy')),
+                           model_behaviours=lambda d: ec.model_jobs(d, tier, shapes=gen.policy_catalogue(),
+                                                                    sims=[(None, 2 if tier == 'quick' else 8, 0, 0, ()),
+                                                                          (_OPS_SHAPES, 2 if tier == 'quick' else 8, 2, 0, ('pause', 'resume'))]))
 
 
 def replay(path):
